@@ -49,6 +49,30 @@ Section C01.
   Proof. exact (imex_fixed_point_is_collocation kO kI kadd kmul ksub kopp Rth M dt t0 nodes Q solve feval). Qed.
 
   (* zero residual <=> collocation equation (the residual IS the defect) *)
+  (* explicit sweeper: both directions, no solver involved, any strictly lower-triangular QE *)
+  Theorem C01_explicit_fixed_point_is_collocation : forall QE u f tau,
+    feval_ext feval -> strictly_lower_triangular kO QE -> consistent kadd kmul M dt t0 nodes feval u f ->
+    let r := expl_update kO kadd kmul ksub M dt t0 nodes Q feval QE u f tau in
+    (forall m, 1 <= m <= M -> forall x, fst r m x = u m x) ->
+    collocation1 kO kadd kmul M dt Q u f tau.
+  Proof. exact (expl_fixed_point_is_collocation kO kI kadd kmul ksub kopp Rth M dt t0 nodes Q feval). Qed.
+
+  Theorem C01_explicit_collocation_is_fixed_point : forall QE u f tau,
+    feval_ext feval -> strictly_lower_triangular kO QE -> consistent kadd kmul M dt t0 nodes feval u f ->
+    collocation1 kO kadd kmul M dt Q u f tau ->
+    let r := expl_update kO kadd kmul ksub M dt t0 nodes Q feval QE u f tau in
+    forall m, 1 <= m <= M -> forall x, fst r m x = u m x.
+  Proof. exact (expl_collocation_is_fixed_point kO kI kadd kmul ksub kopp Rth M dt t0 nodes Q feval). Qed.
+
+  (* multi_implicit (two implicit parts, two-stage sweep): every fixed point solves the collocation problem with f_1 + f_2 *)
+  Theorem C01_multi_implicit_fixed_point_is_collocation : forall Q1 Q2 u f tau,
+    solver_contract kmul ksub solve feval 0 -> solver_contract kmul ksub solve feval 1 -> feval_ext feval ->
+    lower_triangular kO Q1 -> lower_triangular kO Q2 -> consistent kadd kmul M dt t0 nodes feval u f ->
+    let r := mi_update kO kadd kmul ksub M dt t0 nodes Q solve feval Q1 Q2 u f tau in
+    (forall m, 1 <= m <= M -> forall x, fst r m x = u m x) ->
+    collocation2 kO kadd kmul M dt Q u f tau.
+  Proof. exact (mi_fixed_point_is_collocation kO kI kadd kmul ksub kopp Rth M dt t0 nodes Q solve feval). Qed.
+
   Theorem C01_residual_zero_iff_collocation : forall (u : nat -> V) f tau m x,
     residual_vec kO kadd kmul ksub M dt Q 1 u f tau m x = kO <->
     u m x = kadd (kadd (u 0 x) (kmul dt (sumf kO kadd (fun j => kmul (Q m j) (f j 0 x)) 1 M))) (tauval kO tau m x).
@@ -58,4 +82,7 @@ End C01.
 Print Assumptions C01_fixed_point_is_collocation.
 Print Assumptions C01_collocation_is_fixed_point.
 Print Assumptions C01_imex_fixed_point_is_collocation.
+Print Assumptions C01_explicit_fixed_point_is_collocation.
+Print Assumptions C01_explicit_collocation_is_fixed_point.
+Print Assumptions C01_multi_implicit_fixed_point_is_collocation.
 Print Assumptions C01_residual_zero_iff_collocation.
